@@ -88,10 +88,235 @@ func (e *engine) grammarObls(prop string, g *grammarDecl) []*obligation {
 		}
 	}()
 	out = append(out, o2)
+	if g.Values {
+		out = append(out, e.grammarValueObl(prop, g))
+	}
 	return out
 }
 
 func lastLine(s string) string {
 	ls := strings.Split(strings.TrimSpace(s), "\n")
 	return ls[len(ls)-1]
+}
+
+// ---- grammar actions: nothing the parser has built is dropped --------------------------------------------------
+
+type yaccAlt struct {
+	lhs     string
+	symbols []string
+	action  string
+	line    int
+}
+
+// parseYaccRules reads the rules section of a yacc grammar: for every alternative its symbols and its (last) action.
+func parseYaccRules(src string) []yaccAlt {
+	i := strings.Index(src, "\n%%")
+	if i < 0 {
+		return nil
+	}
+	startLine := strings.Count(src[:i+3], "\n") + 1
+	body := src[i+3:]
+	if j := strings.Index(body, "\n%%"); j >= 0 {
+		body = body[:j]
+	}
+	var alts []yaccAlt
+	line := startLine
+	pos := 0
+	lhs := ""
+	var cur *yaccAlt
+	flush := func() {
+		if cur != nil {
+			alts = append(alts, *cur)
+			cur = nil
+		}
+	}
+	isIdent := func(c byte) bool {
+		return c == '_' || c == '.' || (c >= 'a' && c <= 'z') || (c >= 'A' && c <= 'Z') || (c >= '0' && c <= '9')
+	}
+	var pendingIdent string
+	for pos < len(body) {
+		c := body[pos]
+		switch {
+		case c == '\n':
+			line++
+			pos++
+		case c == ' ' || c == '\t' || c == '\r':
+			pos++
+		case strings.HasPrefix(body[pos:], "/*"):
+			end := strings.Index(body[pos+2:], "*/")
+			if end < 0 {
+				pos = len(body)
+				break
+			}
+			line += strings.Count(body[pos:pos+2+end+2], "\n")
+			pos += 2 + end + 2
+		case strings.HasPrefix(body[pos:], "//"):
+			for pos < len(body) && body[pos] != '\n' {
+				pos++
+			}
+		case c == '\'':
+			end := pos + 1
+			for end < len(body) && body[end] != '\'' {
+				if body[end] == '\\' {
+					end++
+				}
+				end++
+			}
+			if cur != nil {
+				cur.symbols = append(cur.symbols, body[pos:end+1])
+			}
+			pos = end + 1
+		case c == '{':
+			depth, end := 0, pos
+			for end < len(body) {
+				switch body[end] {
+				case '{':
+					depth++
+				case '}':
+					depth--
+				case '"':
+					end++
+					for end < len(body) && body[end] != '"' {
+						if body[end] == '\\' {
+							end++
+						}
+						end++
+					}
+				case '\'':
+					if end+2 < len(body) && (body[end+2] == '\'' || (body[end+1] == '\\' && end+3 < len(body) && body[end+3] == '\'')) {
+						if body[end+1] == '\\' {
+							end += 3
+						} else {
+							end += 2
+						}
+					}
+				case '\n':
+					line++
+				}
+				end++
+				if depth == 0 {
+					break
+				}
+			}
+			if cur != nil {
+				cur.action = body[pos:end]
+			}
+			pos = end
+		case c == ':':
+			flush()
+			lhs = pendingIdent
+			pendingIdent = ""
+			cur = &yaccAlt{lhs: lhs, line: line}
+			pos++
+		case c == '|':
+			flush()
+			cur = &yaccAlt{lhs: lhs, line: line}
+			pos++
+		case c == ';':
+			flush()
+			lhs = ""
+			pos++
+		case c == '%':
+			// %prec TOKEN
+			end := pos + 1
+			for end < len(body) && isIdent(body[end]) {
+				end++
+			}
+			for end < len(body) && (body[end] == ' ' || body[end] == '\t') {
+				end++
+			}
+			for end < len(body) && isIdent(body[end]) {
+				end++
+			}
+			pos = end
+		case isIdent(c):
+			end := pos
+			for end < len(body) && isIdent(body[end]) {
+				end++
+			}
+			id := body[pos:end]
+			// an identifier followed by ':' starts a rule; otherwise it is a symbol of the current alternative
+			k := end
+			for k < len(body) && (body[k] == ' ' || body[k] == '\t' || body[k] == '\n' || body[k] == '\r') {
+				k++
+			}
+			if k < len(body) && body[k] == ':' {
+				pendingIdent = id
+			} else if cur != nil {
+				cur.symbols = append(cur.symbols, id)
+			}
+			pos = end
+		default:
+			pos++
+		}
+	}
+	flush()
+	return alts
+}
+
+// grammarValueObl: every alternative's action uses the semantic value of every nonterminal on its right-hand side
+// (`$k`), so nothing the parser has already built for a part of the text is dropped on the way up. Alternatives listed
+// in `except` (LHS/ordinal) are exempt; the contract says why.
+func (e *engine) grammarValueObl(prop string, g *grammarDecl) *obligation {
+	pos := fmt.Sprintf("%s:%d", relPath(g.File), g.Line)
+	o := &obligation{Func: "module", Name: "module/grammar/values", Kind: "frame", Label: prop + ".grammar", Props: []string{prop}, Pos: pos,
+		Clause: "in " + g.Source + " every alternative's action uses the value ($k) of every nonterminal on its right-hand side" + map[bool]string{true: " (exempt: " + strings.Join(g.ValueExcept, ", ") + ")", false: ""}[len(g.ValueExcept) > 0]}
+	src, err := os.ReadFile(filepath.Join(e.w.repo, g.Source))
+	if err != nil {
+		o.Status, o.Output = "refuted", "grammar scan: "+err.Error()
+		return o
+	}
+	alts := parseYaccRules(string(src))
+	if len(alts) == 0 {
+		o.Status, o.Output = "refuted", "grammar scan: no rules found"
+		return o
+	}
+	nonterm := map[string]bool{}
+	for _, a := range alts {
+		nonterm[a.lhs] = true
+	}
+	except := map[string]bool{}
+	for _, x := range g.ValueExcept {
+		except[x] = true
+	}
+	ord := map[string]int{}
+	var bad []string
+	for _, a := range alts {
+		ord[a.lhs]++
+		key := fmt.Sprintf("%s/%d", a.lhs, ord[a.lhs])
+		if except[key] {
+			continue
+		}
+		for i, s := range a.symbols {
+			if !nonterm[s] {
+				continue
+			}
+			if a.action == "" && i == 0 {
+				continue // default action $$ = $1
+			}
+			ref := fmt.Sprintf("$%d", i+1)
+			used := false
+			for k := strings.Index(a.action, ref); k >= 0; {
+				after := k + len(ref)
+				if after >= len(a.action) || a.action[after] < '0' || a.action[after] > '9' {
+					used = true
+					break
+				}
+				n := strings.Index(a.action[after:], ref)
+				if n < 0 {
+					break
+				}
+				k = after + n
+			}
+			if !used {
+				bad = append(bad, fmt.Sprintf("%s (alternative %d, line %d): the value of %s (%s) is not used", a.lhs, ord[a.lhs], a.line, s, ref))
+			}
+		}
+	}
+	if len(bad) == 0 {
+		o.Status, o.Solver, o.Output = "discharged", "grammar scan", fmt.Sprintf("grammar scan: %d alternatives", len(alts))
+	} else {
+		o.Status, o.Output = "refuted", "grammar scan: "+strings.Join(bad, "; ")
+	}
+	return o
 }
